@@ -478,6 +478,30 @@ def keep_unknown(rep, split=False):
                                 bad = True
                 if bad:
                     union_unknown.append(ti.label)
+    # G13.n the countdown of still-missing known fields: one increment per known field, one decrement per field arm
+    for ti in infos:
+        dec = ti.methods.get('decode')
+        if dec is None or not any(ld.get('n') == '__pilota_fields_num' for ld in dec.locals):
+            continue
+        cl = dec.locals
+        cnt = [i for i, ld in enumerate(cl) if ld.get('n') == '__pilota_fields_num']
+        incs = decs = 0
+        for x in [dec] + list(g.cg.children.get(dec.id, [])):
+            for bi, t in x.asserts():
+                if t['msg'] == 'Overflow(Add)' and x.expr_op(t['b']) == ('const', 1) and x.id == dec.id:
+                    a = t['a'].get('cp') or t['a'].get('mv')
+                    if a and a['l'] in cnt:
+                        incs += 1
+                if t['msg'] == 'Overflow(Sub)' and x.expr_op(t['b']) == ('const', 1):
+                    a = t['a'].get('cp') or t['a'].get('mv')
+                    if a and ((x.id == dec.id and a['l'] in cnt) or (x.id != dec.id and a['p'] and a['p'][0] == '*')):
+                        decs += 1
+        nfields = len(ti.fields)
+        key = 'G13.n|%s|field countdown' % ti.label
+        if incs == decs == nfields:
+            rep.ok('G13.n', key, '%d fields: %d increments, %d decrementing arms' % (nfields, incs, decs), dec.loc())
+        else:
+            rep.bad('G13.n', key, dec.loc(), 'keep-mode decoder of %s counts %d known fields up but has %d decrementing arms for %d declared fields: the "all known fields seen" shortcut fires while a known field is still on the wire (or never)' % (ti.label, incs, decs, nfields))
     # which structs may carry the whole-buffer shortcut at all: only those that are directly the type of a method parameter
     direct = set()
     for fname, F in files.items():
@@ -834,6 +858,12 @@ def defaults(rep, split=False):
         key = 'G20.b|%s' % ti.label
         rep.disagreements_checked += len(ti.fields)
         same_seq = got == want
+        if not same_seq:
+            # Default::default() calls are terminators while literal operands sit in the struct aggregate that follows them:
+            # the relative position of `default` leaves is an artefact of MIR, the order of the literal leaves is not
+            nd = lambda xs: [x for x in xs if x != ('default',)]
+            if nd(got) == nd(want) and got.count(('default',)) == want.count(('default',)):
+                same_seq = True
         if not same_seq and Counter(got) == Counter(want) and any(ti.F.resolve(f.ty)[0] == 'map' and f.default is not None for f in ti.fields):
             # map literals: Rust evaluates the value expression before the key constant is passed to insert(); compare as multisets
             same_seq = True
